@@ -8,6 +8,8 @@
 #include <tapkee/defines/types.hpp>
 /* End of Tapkee includes */
 
+#include <cstring>
+
 namespace tapkee
 {
 
@@ -25,11 +27,11 @@ template <typename M> struct Method
     }
     bool is(const M& m) const
     {
-        return this->name() == m.name();
+        return std::strcmp(this->name(), m.name()) == 0;
     }
     bool operator==(const M& m) const
     {
-        return this->name() == m.name();
+        return std::strcmp(this->name(), m.name()) == 0;
     }
     const char* name_;
 };
